@@ -329,10 +329,10 @@ func lenMatches(callee string) core.Guard {
 	}}
 }
 
-func runC12(p *core.Prog, r *core.Report) {
-	r.Explain = "Decides the publish-after-complete-write discipline that makes a stop at any point harmless: (R1) the call that makes an object visible under its final name (linkat from the O_TMPFILE descriptor / rename of the temporary file) is reached only after the data write returned nil AND the full-length test passed (linux) or the temporary file was written and closed successfully (generic); (R2) the final object path is never opened or created for writing — inside the writers the path parameter flows only into the link/rename target, into the temporary name (path + '#' + n) and into error messages; (R3) the temporary-name separator the generic writer uses is the one the start-up cleaner matches, and such names cannot parse as object addresses; (R4) only EEXIST from link is mapped to success. Not covered: kernel atomicity of linkat/rename, enumeration of stop points, fsync semantics."
+// publishAfterCompleteWrite: shared by C12.R1 and C15.R6 — in every writer the call that makes the object visible under its
+// final name comes after the complete, successful data write.
+func publishAfterCompleteWrite(p *core.Prog, r *core.Report, r1 *core.RuleH) {
 	wv := func(n string) core.Guard { return core.G("data-written", core.ErrNil, n) }
-	r1 := r.Rule("C12.R1", "the publishing call (linkat / rename to the final path) is dominated by a successful, full-length data write", 5)
 	core.CheckEffects(p, r1, core.EffectRule{Fn: "(*" + fst + "syncBatch).write", Min: 1,
 		Guards: []core.Guard{wv("golang.org/x/sys/unix.Writev"), lenMatches("golang.org/x/sys/unix.Writev")},
 		Effect: core.CallTo("golang.org/x/sys/unix.Linkat")})
@@ -366,8 +366,14 @@ func runC12(p *core.Prog, r *core.Report) {
 		}
 	}
 	if nRen == 0 {
-		r.Fatalf("C12.R1: the generic writer no longer renames anything into place")
+		r.Fatalf("%s: the generic writer no longer renames anything into place", r1.ID())
 	}
+}
+
+func runC12(p *core.Prog, r *core.Report) {
+	r.Explain = "Decides the publish-after-complete-write discipline that makes a stop at any point harmless: (R1) the call that makes an object visible under its final name (linkat from the O_TMPFILE descriptor / rename of the temporary file) is reached only after the data write returned nil AND the full-length test passed (linux) or the temporary file was written and closed successfully (generic); (R2) the final object path is never opened or created for writing — inside the writers the path parameter flows only into the link/rename target, into the temporary name (path + '#' + n) and into error messages; (R3) the temporary-name separator the generic writer uses is the one the start-up cleaner matches, and such names cannot parse as object addresses; (R4) only EEXIST from link is mapped to success. Not covered: kernel atomicity of linkat/rename, enumeration of stop points, fsync semantics."
+	r1 := r.Rule("C12.R1", "the publishing call (linkat / rename to the final path) is dominated by a successful, full-length data write", 5)
+	publishAfterCompleteWrite(p, r, r1)
 	// R2 value flow of the final path
 	r2 := r.Rule("C12.R2", "the final object path flows only into the link/rename target, the temporary name and error messages — never into a file-creating call", 4)
 	type pathFn struct {
